@@ -22,7 +22,7 @@ package types
 //@ keyfns GroupStoreKey DKGContextStoreKey MemberStoreKey Round1InfoCountStoreKey Round1InfoStoreKey
 //@   AccumulatedCommitStoreKey Round2InfoStoreKey Round2InfoCountStoreKey ConfirmStoreKey
 //@   ComplainsWithStatusStoreKey ConfirmComplainCountStoreKey DEStoreKey DEQueueStoreKey SigningStoreKey
-//@   PartialSignatureCountStoreKey PartialSignatureStoreKey SigningAttemptStoreKey
+//@   PartialSignatureCountStoreKey PartialSignatureStoreKey SigningAttemptStoreKey MembersStoreKey
 
 //@ func (k RollingseedKeeper) GetRollingSeed
 //@ trusted
